@@ -4,6 +4,7 @@ import Wbxml.Model.AllocCont
 import Wbxml.Model.AllocParse
 import Wbxml.Model.AllocEnc
 import Wbxml.Model.AllocOld
+import Wbxml.Model.AllocTree
 namespace Driver.AllocDrv
 open Wbxml Wbxml.Model.Alloc
 
@@ -313,12 +314,114 @@ def doT (old : Bool) (k1 k2 : Nat) (useStr : Bool) (version publicId : Nat) (chu
     | (.error (.ub w), _) => s!"UB {w}"
     | (.error _, _) => "UB ?"
 
+/-! ### B: the tree-building call-backs (`wbxml_tree_clb_wbxml_*`) -/
+
+inductive NameSpec where
+  | token (row : Nat)
+  | literal (b : Bytes)
+
+def parseNameSpec (cs : List Char) : Option NameSpec :=
+  match cs with
+  | 'T' :: r => some (.token (String.ofList r).toNat!)
+  | 'L' :: r => (if r == ['-'] then some [] else bytesOfHexChars r).map .literal
+  | _ => none
+
+inductive EvSpec where
+  | start (tag : NameSpec) (attrs : List (NameSpec × Option Bytes))
+  | stop
+  | chars (text : Bytes) (cd : Bool)
+
+def parseAttrSpec (s : String) : Option (NameSpec × Option Bytes) :=
+  match s.splitOn "=" with
+  | [n, v] => do
+    let n ← parseNameSpec n.toList
+    let v ← unhexOpt v
+    pure (n, v)
+  | _ => none
+
+def parseEvSpec (s : String) : Option EvSpec :=
+  match s.toList with
+  | ['E'] => some .stop
+  | 'C' :: r => (unhex (String.ofList r)).map (.chars · false)
+  | 'V' :: r => (unhex (String.ofList r)).map (.chars · true)
+  | 'S' :: r =>
+    match (String.ofList r).splitOn "/" with
+    | [t] => (parseNameSpec t.toList).map (.start · [])
+    | [t, as] => do
+      let t ← parseNameSpec t.toList
+      let as ← (as.splitOn ";").mapM parseAttrSpec
+      pure (.start t as)
+    | _ => none
+  | _ => none
+
+def mkName : NameSpec → Prog AName
+  | .token r => do
+    match ← nameCreateToken r with
+    | some t => pure t
+    | none => ub "setup allocation failed"
+  | .literal b => do
+    match ← nameCreateLiteral (some b) with
+    | some t => pure t
+    | none => ub "setup allocation failed"
+
+def mkAttrs : List (NameSpec × Option Bytes) → Prog (List AAttr)
+  | [] => pure []
+  | (n, v) :: rest => do
+    let a ← attrCreate
+    let nm ← mkName n
+    let vb ← (match v with
+      | none => pure none
+      | some bs => bufCreate (some bs) bs.length)
+    let as ← mkAttrs rest
+    match a with
+    | none => ub "setup allocation failed"
+    | some a => pure ({ a with name := some nm, value := vb } :: as)
+
+/-- The objects the parser hands to the call-backs exist before the observed window. -/
+def mkEvents : List EvSpec → Prog (List TEvent)
+  | [] => pure []
+  | .start t as :: rest => do
+    let tag ← mkName t
+    let attrs ← mkAttrs as
+    let evs ← mkEvents rest
+    pure (.start tag attrs :: evs)
+  | .stop :: rest => do
+    let evs ← mkEvents rest
+    pure (.stop :: evs)
+  | .chars b cd :: rest => do
+    let evs ← mkEvents rest
+    pure (.chars b cd :: evs)
+
+def framesSig : List Frame → String → String
+  | [], inner => inner
+  | f :: rest, inner => framesSig rest s!"({headSig f.kind f.node}{"".intercalate (f.kids.map (·.sig))}{inner})"
+
+def ctxSig (c : TCtx) : String :=
+  match c.root with
+  | some k => k.sig
+  | none => if c.frames.isEmpty then "-" else framesSig c.frames ""
+
+def doB (k1 k2 : Nat) (events : String) : String :=
+  match (if events == "-" then some [] else (events.splitOn ",").mapM parseEvSpec) with
+  | none => "BADREQ"
+  | some specs =>
+    match run (mkEvents specs) {} with
+    | (.ok evs, s1) =>
+      let s1 := { s1 with sched := sched s1.next k1 k2, hits := 0 }
+      match run (treeFromEvents evs) s1 with
+      | (.ok (ret, c), s) =>
+        s!"R {ret} | {tail s1 s} fault=none | cur={match c with | none => 0 | some c => c.frames.length} tree={match c with | none => "N" | some c => ctxSig c}"
+      | (.error (.ub w), _) => s!"UB {w}"
+      | (.error _, _) => "UB ?"
+    | _ => "UB setup"
+
 def dispatch (line : String) : String :=
   match line.trimAscii.toString.splitOn " " with
   | "OOM" :: "U" :: k1 :: k2 :: ops => doU k1.toNat! k2.toNat! ops
   | ["OOM", "P", k1, k2, tag, attrs] => doP false k1.toNat! k2.toNat! tag attrs
   | ["OOM", "POLD", k1, k2, tag, attrs] => doP true k1.toNat! k2.toNat! tag attrs
   | ["OOM", "S", k1, k2, texts] => doS k1.toNat! k2.toNat! texts
+  | ["OOM", "B", k1, k2, events] => doB k1.toNat! k2.toNat! events
   | ["OOM", "T", k1, k2, us, ver, pid, _tree, chunks] => doT false k1.toNat! k2.toNat! (us == "1") ver.toNat! pid.toNat! chunks
   | ["OOM", "TOLD", k1, k2, us, ver, pid, _tree, chunks] => doT true k1.toNat! k2.toNat! (us == "1") ver.toNat! pid.toNat! chunks
   | _ => "BADVERB"
